@@ -494,6 +494,17 @@ Definition fresh_pick (pick : list Z -> Z) : Prop :=
 (* one valid choice, used by the extracted driver *)
 Definition pick_max (l : list Z) : Z := fold_right Z.max 0 l + 1.
 
+(* the choice the kernel really makes: the lowest descriptor number >= base that is not open (base =
+   0 for an ordinary process; the driver also runs histories in which everything below 1023, 1024 or
+   1025 is taken).  length l + 1 candidates always contain a free one; the fuel-exhausted branch is
+   there to keep the definition total without a pigeonhole argument and is fresh as well. *)
+Fixpoint low_from (fuel : nat) (k : Z) (l : list Z) : Z :=
+  match fuel with
+  | O => Z.max k (fold_right Z.max 0 l + 1)
+  | S f => if existsb (Z.eqb k) l then low_from f (k + 1) l else k
+  end.
+Definition pick_low (base : Z) (l : list Z) : Z := low_from (S (length l)) (Z.max 0 base) l.
+
 (* dangling: a live object whose descriptor field is non-negative but not open *)
 Definition dangling (w : world) : list nat :=
   let fix go (k : nat) (l : list (option sock)) : list nat :=
